@@ -61,11 +61,11 @@ OPS = [{"c": "put", "key": ["a", "x"], "good": True}, {"c": "del", "key": ["a", 
 TIER = {
     "quick": dict(
         mc=[dict(name="w2-o4", W=["w1", "w2"], ops="MC_OpsTiny", buf=1, maxops=4, hb=1)],
-        sim=dict(num=150, depth=22), rnd=200, rnd_len=28, workers=8, timeout=900),
+        sim=dict(num=40, depth=22), rnd=240, rnd_len=28, workers=8, timeout=900),
     "thorough": dict(
         mc=[dict(name="w2-o4", W=["w1", "w2"], ops="MC_OpsTiny", buf=1, maxops=4, hb=1),
             dict(name="w2-o5-b2", W=["w1", "w2"], ops="MC_OpsTiny", buf=2, maxops=5, hb=1),
-            dict(name="w3-o4", W=W3, ops="MC_OpsSmall", buf=1, maxops=4, hb=1)],
+            dict(name="w3-o4", W=W3, ops="MC_OpsSmall", buf=1, maxops=4, hb=1, design=False)],
         sim=dict(num=3000, depth=30), rnd=4000, rnd_len=40, workers=8, timeout=2700),
 }
 
@@ -123,11 +123,11 @@ def random_schedule(rng, length):
             s.append({"a": "Register", "w": rng.choice(ws), "t": rng.choice(TARGETS)})
         elif r < 0.20:
             s.append({"a": "Drop", "w": rng.choice(ws)})
-        elif r < 0.45:
+        elif r < 0.40:
             k = 1 if rng.random() < 0.7 else 2
             s.append({"a": "Apply", "ops": [rng.choice(OPS) for _ in range(k)]})
             nops += k
-        elif r < 0.72:
+        elif r < 0.74:
             s.append({"a": "Disp"})
         elif r < 0.95:
             s.append({"a": "Recv", "w": rng.choice(ws)})
@@ -153,9 +153,9 @@ def run_harness(wd, cases, tag):
     return op, recs, dt
 
 
-def judge(wd, trace_path, qcap, buf, tag):
+def judge(wd, trace_path, qcap, buf, tag, dev):
     cfg = write_cfg(os.path.join(wd, "judge-%s.cfg" % tag), W3, "TraceTargets", "TraceOps", qcap, buf, 1000, 2, 1000,
-                    AS_IMPL, 0, ["Done"], view=False, spec="TSpec")
+                    dev, 0, ["Done"], view=False, spec="TSpec")
     outp = os.path.join(wd, "judge-%s.json" % tag)
     rc, out, dt = dv.tlc("WatchTrace", cfg, wd, workers=1, env={"TRACE": trace_path, "OUT": outp},
                          timeout=3000, java_opts="-Xss1g -Xmx6g")
@@ -188,32 +188,51 @@ def _check(prop, tier, T, wd, t0):
     mc_stats = []
     phases = {}
     states = transitions = 0
-    witnesses = []      # (monitor, cfg, schedule)
-    for c in T["mc"]:
-        # 1. repaired design
-        st = mc(wd, c, [], ["C24_Safety", "C24_NoSilentGap", "Obs_Progress"], T["workers"], T["timeout"], "design")
-        if not st["ok"]:
-            raise dv.ToolError("Watch.tla (Dev = {}) violates %s in %s" % (st["violated"], c["name"]))
-        mc_stats.append(dict(config=c["name"], dev="{}", constants=c, distinct_states=st["distinct"],
-                             states_generated=st["generated"], depth=st["depth"], secs=st["secs"]))
-        states += st["distinct"]
-        transitions += st["generated"]
-        # 2. as implemented: safety monitors hold on the whole space
-        st = mc(wd, c, AS_IMPL, ["C24_Safety"], T["workers"], T["timeout"], "asimpl")
-        if not st["ok"]:
-            raise dv.ToolError("as-implemented Watch.tla violates %s in %s: model and invariants disagree"
-                               % (st["violated"], c["name"]))
-        mc_stats.append(dict(config=c["name"], dev="as-implemented", constants=c, distinct_states=st["distinct"],
-                             states_generated=st["generated"], depth=st["depth"], secs=st["secs"]))
-        states += st["distinct"]
-        transitions += st["generated"]
     c0 = T["mc"][0]
-    # witnesses of what the deviations break + vacuity controls
+    # 0. which of the listed deviations does the current tree show?  The shortest witness of each deviation
+    #    (TLC, full deviation list) is executed on the real code and judged.
+    probes = []
     for inv, mon in (("GapWitness", "NoSilentGap"), ("ProgressWitness", "ProgressNotBehind")):
         st = mc(wd, c0, AS_IMPL, [inv], 4, T["timeout"], "wit-" + mon)
         if not st["witness"]:
-            raise dv.ToolError("as-implemented model does not violate %s (deviation list out of date?)" % mon)
-        witnesses.append((mon, c0, st["witness"][0]))
+            raise dv.ToolError("the model with all listed deviations does not violate %s" % mon)
+        probes.append((mon, st["witness"][0]))
+    cases = [{"id": "wit-" + mon, "qcap": 2, "bufcap": c0["buf"], "steps": s + epilogue(W3)} for mon, s in probes]
+    tp, _, _ = run_harness(wd, cases, "probe")
+    res, _ = judge(wd, tp, 2, c0["buf"], "probe", AS_IMPL)
+    pr = {j["id"]: j for j in res}
+    dev = []
+    if any(v["m"] == "NoSilentGap" and v["cause"] == "broadcast-lagged" for v in pr["wit-NoSilentGap"]["viol"]):
+        dev.append("LaggedWatchEventsDropped")
+    if pr["wit-ProgressNotBehind"]["progress"]:
+        dev.append("ProgressRevisionFromStaleCounter")
+    for d in AS_IMPL:
+        if d not in dev:
+            print("NOTE property=%s listed deviation %s is not shown by the current tree any more" % (prop, d))
+    witnesses = [(mon, c0, s) for mon, s in probes]
+    for c in T["mc"]:
+        # 1. repaired design (the largest configuration is only run for the model bound to the code)
+        if c.get("design", True) or not dev:
+            st = mc(wd, c, [], ["C24_Safety", "C24_NoSilentGap", "Obs_Progress"], T["workers"], T["timeout"], "design")
+            if not st["ok"]:
+                raise dv.ToolError("Watch.tla (Dev = {}) violates %s in %s" % (st["violated"], c["name"]))
+            mc_stats.append(dict(config=c["name"], dev="{}", constants=c, distinct_states=st["distinct"],
+                                 states_generated=st["generated"], depth=st["depth"], secs=st["secs"]))
+            states += st["distinct"]
+            transitions += st["generated"]
+        if not dev:
+            continue
+        # 2. as implemented: safety monitors hold on the whole space
+        st = mc(wd, c, dev, ["C24_Safety"], T["workers"], T["timeout"], "asimpl")
+        if not st["ok"]:
+            raise dv.ToolError("as-implemented Watch.tla violates %s in %s: model and invariants disagree"
+                               % (st["violated"], c["name"]))
+        mc_stats.append(dict(config=c["name"], dev="as-implemented " + ",".join(dev), constants=c,
+                             distinct_states=st["distinct"], states_generated=st["generated"], depth=st["depth"],
+                             secs=st["secs"]))
+        states += st["distinct"]
+        transitions += st["generated"]
+
     # 3. schedules
     groups = {(2, 1): [], (2, 2): []}
     for mon, c, s in witnesses:
@@ -248,7 +267,7 @@ def _check(prop, tier, T, wd, t0):
                 if bad:
                     raise dv.ToolError("harness step failed in %s: %s" % (r["id"], bad[:3]))
                 div.append({"id": r["id"], "what": "panic in the code under test: " + r.get("panic", "")})
-        res, jsecs = judge(wd, tp, qcap, buf, tag)
+        res, jsecs = judge(wd, tp, qcap, buf, tag, dev)
         phases["judge-" + tag] = round(jsecs, 1)
         if len(res) != len(cases):
             raise dv.ToolError("judge returned %d results for %d behaviours" % (len(res), len(cases)))
@@ -266,6 +285,7 @@ def _check(prop, tier, T, wd, t0):
             counts["delivered_events"] += nd
             counts["lagged"] += 1 if j["lagged"] else 0
             counts["cancelled"] += 1 if j["cancelled"] else 0
+            counts["model_cancelled"] = counts.get("model_cancelled", 0) + (1 if j["mcancelled"] else 0)
             if j["id"].startswith("sim"):
                 counts["simulated"] += 1
             elif j["id"].startswith("rnd"):
@@ -278,21 +298,12 @@ def _check(prop, tier, T, wd, t0):
                                     "cancelled": j["cancelled"], "received": b["obs"],
                                     "schedule": [x["a"] + (":" + x["w"] if "w" in x else "") for x in b["steps"][:30]]})
 
-    # vacuity: the executions exercised the mechanisms
-    if counts["lagged"] == 0 or counts["cancelled"] == 0 or counts["delivered_events"] == 0:
-        raise dv.ToolError("executions never exercised lag / cancel / delivery: %s" % counts)
-    # 6. the model's witnesses must reproduce on the real code
-    wit_ids = {"wit-" + mon for mon, _, _ in witnesses}
-    got_gap = [v for v in viol if v["id"] == "wit-NoSilentGap" and v["m"] == "NoSilentGap"]
-    if "LaggedWatchEventsDropped" in AS_IMPL and not got_gap:
-        raise dv.ToolError("the model's NoSilentGap witness does not reproduce on the real code: Watch.tla "
-                           "misrepresents the code (deviation LaggedWatchEventsDropped)")
-    if "ProgressRevisionFromStaleCounter" in AS_IMPL and \
-            not any(o["id"] == "wit-ProgressNotBehind" for o in observations):
-        raise dv.ToolError("the model's progress-revision witness does not reproduce on the real code")
-
     known = dv.load_known() + dv.load_known_part("watch")
     known_hits, new = dv.classify(prop, viol, known=known)
+    # vacuity: the schedules exercised lag, cancellation and delivery (judged on the model's side, so that a
+    # broken implementation cannot hide behind it)
+    if not new and (counts["lagged"] == 0 or counts.get("model_cancelled", 0) == 0 or counts["delivered_events"] == 0):
+        raise dv.ToolError("schedules never exercised lag / cancel / delivery: %s" % counts)
     replay_paths = []
     seen = set()
     for v in new:
@@ -314,6 +325,7 @@ def _check(prop, tier, T, wd, t0):
                 "WatchTrace.tla; non-trivial = at least 2 events were received by watchers and (the broadcast "
                 "channel lagged, or a watcher was cancelled, or at least 4 events were received); distinct by schedule",
         "model_checking": mc_stats, "behaviour_counts": counts, "phase_secs": phases,
+        "deviations_listed": AS_IMPL, "deviations_shown_by_current_tree": dev,
         "monitor_failures": len(viol),
         "monitor_failures_by_signature": _count(viol),
         "conformance_divergences": div[:20], "conformance_divergence_count": len(div),
@@ -355,7 +367,7 @@ def replay(prop, path):
         dv.build_harness("dv-watch")
         tp, recs, _ = run_harness(wd, [{"id": "replay", "qcap": p["qcap"], "bufcap": p["bufcap"],
                                         "steps": p["steps"]}], "replay")
-        res, _ = judge(wd, tp, p["qcap"], p["bufcap"], "replay")
+        res, _ = judge(wd, tp, p["qcap"], p["bufcap"], "replay", AS_IMPL)
         viol = [v for j in res for v in j["viol"]]
         for v in viol:
             print("reproduced:", json.dumps(v, sort_keys=True))
